@@ -137,8 +137,11 @@ func api1() map[string]apiFn {
 			n, _ := recv1(r)
 			_ = fmt.Sprintf("%10.3f|%-5g|%e|%v|%d|%+#08.2x", n, n, n, n, n, n)
 		},
-		"Number.WithStart":       func(r string, a, b, c int) { _, s := recv1(r); drain1(s.WithStart(a).WithEnd(60).FullIterator()) },
-		"Number.WithEnd":         func(r string, a, b, c int) { _, s := recv1(r); drain1(s.WithEnd(a).WithStart(b).WithEnd(60).FullIterator()) },
+		"Number.WithStart": func(r string, a, b, c int) { _, s := recv1(r); drain1(s.WithStart(a).WithEnd(60).FullIterator()) },
+		"Number.WithEnd": func(r string, a, b, c int) {
+			_, s := recv1(r)
+			drain1(s.WithEnd(a).WithStart(b).WithEnd(60).FullIterator())
+		},
 		"Number.WithSignificant": func(r string, a, b, c int) { n, _ := recv1(r); n.WithSignificant(a).At(0) },
 		"Number.Iterator":        func(r string, a, b, c int) { n, _ := recv1(r); drainInts(n.WithSignificant(40).Iterator()) },
 		"Number.IteratorAt":      func(r string, a, b, c int) { n, _ := recv1(r); drainInts(n.WithSignificant(40).IteratorAt(a)) },
@@ -153,7 +156,12 @@ func api1() map[string]apiFn {
 		"FindFirstN":             func(r string, a, b, c int) { _, s := recv1(r); v1.FindFirstN(s.WithEnd(50), pickSlice(a), b) },
 		"FindLast":               func(r string, a, b, c int) { _, s := recv1(r); v1.FindLast(s.WithEnd(50), pickSlice(a)) },
 		"FindLastN":              func(r string, a, b, c int) { _, s := recv1(r); v1.FindLastN(s.WithEnd(50), pickSlice(a), b) },
-		"PositionsBuilder.Add":   func(r string, a, b, c int) { var pb v1.PositionsBuilder; pb.Add(a).Add(b).Add(c); p := pb.Build(); p.End() },
+		"PositionsBuilder.Add": func(r string, a, b, c int) {
+			var pb v1.PositionsBuilder
+			pb.Add(a).Add(b).Add(c)
+			p := pb.Build()
+			p.End()
+		},
 		"PositionsBuilder.AddRange": func(r string, a, b, c int) {
 			var pb v1.PositionsBuilder
 			pb.AddRange(a, b).AddRange(c, a).AddRange(b, c)
@@ -162,15 +170,42 @@ func api1() map[string]apiFn {
 			for _, ok := it(); ok; _, ok = it() {
 			}
 		},
-		"PositionsBuilder.Build": func(r string, a, b, c int) { var pb v1.PositionsBuilder; pb.Build(); pb.Add(a); pb.Build(); pb.Build() },
-		"Positions.End":          func(r string, a, b, c int) { var p v1.Positions; p.End(); v1.UpTo(a).End() },
-		"Positions.Ranges":       func(r string, a, b, c int) { var p v1.Positions; it := p.Ranges(); it(); it() },
-		"UpTo":                   func(r string, a, b, c int) { v1.UpTo(a) },
-		"Between":                func(r string, a, b, c int) { v1.Between(a, b) },
-		"DigitsPerRow":           func(r string, a, b, c int) { _, s := recv1(r); v1.Sprint(s, v1.UpTo(30), v1.DigitsPerRow(a), v1.DigitsPerColumn(b)) },
-		"DigitsPerColumn":        func(r string, a, b, c int) { _, s := recv1(r); v1.Sprint(s, v1.UpTo(30), v1.DigitsPerColumn(a), v1.DigitsPerRow(b)) },
-		"ShowCount":              func(r string, a, b, c int) { _, s := recv1(r); v1.Sprint(s, v1.UpTo(30), v1.ShowCount(a%2 == 0), v1.DigitsPerRow(b)) },
-		"MissingDigit":           func(r string, a, b, c int) { _, s := recv1(r); v1.Sprint(s, v1.Between(3, 30), v1.MissingDigit(rune(a))) },
+		"PositionsBuilder.Build": func(r string, a, b, c int) {
+			var pb v1.PositionsBuilder
+			pb.Build()
+			pb.Add(a)
+			pb.Build()
+			pb.Build()
+			// a builder is reusable after Build, whatever order its ranges came in
+			pb.Add(b).Add(a).Add(c).AddRange(a-2, a-1)
+			pb.Build()
+			pb.AddRange(c, b)
+			pb.Add(a)
+			pb.Build()
+			pb.AddRange(b, c).AddRange(a, b)
+			pb.Build()
+			pb.Add(c)
+		},
+		"Positions.End":    func(r string, a, b, c int) { var p v1.Positions; p.End(); v1.UpTo(a).End() },
+		"Positions.Ranges": func(r string, a, b, c int) { var p v1.Positions; it := p.Ranges(); it(); it() },
+		"UpTo":             func(r string, a, b, c int) { v1.UpTo(a) },
+		"Between":          func(r string, a, b, c int) { v1.Between(a, b) },
+		"DigitsPerRow": func(r string, a, b, c int) {
+			_, s := recv1(r)
+			v1.Sprint(s, v1.UpTo(30), v1.DigitsPerRow(a), v1.DigitsPerColumn(b))
+		},
+		"DigitsPerColumn": func(r string, a, b, c int) {
+			_, s := recv1(r)
+			v1.Sprint(s, v1.UpTo(30), v1.DigitsPerColumn(a), v1.DigitsPerRow(b))
+		},
+		"ShowCount": func(r string, a, b, c int) {
+			_, s := recv1(r)
+			v1.Sprint(s, v1.UpTo(30), v1.ShowCount(a%2 == 0), v1.DigitsPerRow(b))
+		},
+		"MissingDigit": func(r string, a, b, c int) {
+			_, s := recv1(r)
+			v1.Sprint(s, v1.Between(3, 30), v1.MissingDigit(rune(a)))
+		},
 		"Sprint": func(r string, a, b, c int) {
 			_, s := recv1(r)
 			lo, hi := a, b
@@ -179,8 +214,14 @@ func api1() map[string]apiFn {
 			}
 			v1.Sprint(s, v1.Between(lo, hi), v1.DigitsPerRow(c))
 		},
-		"Fprint": func(r string, a, b, c int) { _, s := recv1(r); v1.Fprint(io.Discard, s, v1.UpTo(40), v1.DigitsPerRow(a), v1.DigitsPerColumn(b)) },
-		"Print":  func(r string, a, b, c int) { _, s := recv1(r); withStdoutDiscarded(func() { v1.Print(s, v1.UpTo(20), v1.DigitsPerRow(a)) }) },
+		"Fprint": func(r string, a, b, c int) {
+			_, s := recv1(r)
+			v1.Fprint(io.Discard, s, v1.UpTo(40), v1.DigitsPerRow(a), v1.DigitsPerColumn(b))
+		},
+		"Print": func(r string, a, b, c int) {
+			_, s := recv1(r)
+			withStdoutDiscarded(func() { v1.Print(s, v1.UpTo(20), v1.DigitsPerRow(a)) })
+		},
 	}
 	return m
 }
@@ -204,8 +245,11 @@ func api2() map[string]apiFn {
 			n, _ := recv2(r)
 			_ = fmt.Sprintf("%10.3f|%-5g|%e|%v|%d|%+#08.2x", n, n, n, n, n, n)
 		},
-		"Number.WithStart":       func(r string, a, b, c int) { _, s := recv2(r); drain2(s.WithStart(a).WithEnd(60).Iterator()) },
-		"Number.WithEnd":         func(r string, a, b, c int) { _, s := recv2(r); drain2(s.WithEnd(a).WithStart(b).WithEnd(60).Iterator()) },
+		"Number.WithStart": func(r string, a, b, c int) { _, s := recv2(r); drain2(s.WithStart(a).WithEnd(60).Iterator()) },
+		"Number.WithEnd": func(r string, a, b, c int) {
+			_, s := recv2(r)
+			drain2(s.WithEnd(a).WithStart(b).WithEnd(60).Iterator())
+		},
 		"Number.WithSignificant": func(r string, a, b, c int) { n, _ := recv2(r); n.WithSignificant(a).At(0) },
 		"Number.Iterator":        func(r string, a, b, c int) { _, s := recv2(r); drain2(s.WithEnd(50).Iterator()) },
 		"Number.Reverse":         func(r string, a, b, c int) { _, s := recv2(r); drain2(s.WithEnd(50).Reverse()) },
@@ -216,7 +260,12 @@ func api2() map[string]apiFn {
 		"FindFirstN":             func(r string, a, b, c int) { _, s := recv2(r); v2.FindFirstN(s.WithEnd(50), pickSlice(a), b) },
 		"FindLast":               func(r string, a, b, c int) { _, s := recv2(r); v2.FindLast(s.WithEnd(50), pickSlice(a)) },
 		"FindLastN":              func(r string, a, b, c int) { _, s := recv2(r); v2.FindLastN(s.WithEnd(50), pickSlice(a), b) },
-		"PositionsBuilder.Add":   func(r string, a, b, c int) { var pb v2.PositionsBuilder; pb.Add(a).Add(b).Add(c); p := pb.Build(); p.End() },
+		"PositionsBuilder.Add": func(r string, a, b, c int) {
+			var pb v2.PositionsBuilder
+			pb.Add(a).Add(b).Add(c)
+			p := pb.Build()
+			p.End()
+		},
 		"PositionsBuilder.AddRange": func(r string, a, b, c int) {
 			var pb v2.PositionsBuilder
 			pb.AddRange(a, b).AddRange(c, a).AddRange(b, c)
@@ -225,15 +274,42 @@ func api2() map[string]apiFn {
 			for _, ok := it(); ok; _, ok = it() {
 			}
 		},
-		"PositionsBuilder.Build": func(r string, a, b, c int) { var pb v2.PositionsBuilder; pb.Build(); pb.Add(a); pb.Build(); pb.Build() },
-		"Positions.End":          func(r string, a, b, c int) { var p v2.Positions; p.End(); v2.UpTo(a).End() },
-		"Positions.Ranges":       func(r string, a, b, c int) { var p v2.Positions; it := p.Ranges(); it(); it() },
-		"UpTo":                   func(r string, a, b, c int) { v2.UpTo(a) },
-		"Between":                func(r string, a, b, c int) { v2.Between(a, b) },
-		"DigitsPerRow":           func(r string, a, b, c int) { _, s := recv2(r); v2.Sprint(s, v2.UpTo(30), v2.DigitsPerRow(a), v2.DigitsPerColumn(b)) },
-		"DigitsPerColumn":        func(r string, a, b, c int) { _, s := recv2(r); v2.Sprint(s, v2.UpTo(30), v2.DigitsPerColumn(a), v2.DigitsPerRow(b)) },
-		"ShowCount":              func(r string, a, b, c int) { _, s := recv2(r); v2.Sprint(s, v2.UpTo(30), v2.ShowCount(a%2 == 0), v2.DigitsPerRow(b)) },
-		"MissingDigit":           func(r string, a, b, c int) { _, s := recv2(r); v2.Sprint(s, v2.Between(3, 30), v2.MissingDigit(rune(a))) },
+		"PositionsBuilder.Build": func(r string, a, b, c int) {
+			var pb v2.PositionsBuilder
+			pb.Build()
+			pb.Add(a)
+			pb.Build()
+			pb.Build()
+			// a builder is reusable after Build, whatever order its ranges came in
+			pb.Add(b).Add(a).Add(c).AddRange(a-2, a-1)
+			pb.Build()
+			pb.AddRange(c, b)
+			pb.Add(a)
+			pb.Build()
+			pb.AddRange(b, c).AddRange(a, b)
+			pb.Build()
+			pb.Add(c)
+		},
+		"Positions.End":    func(r string, a, b, c int) { var p v2.Positions; p.End(); v2.UpTo(a).End() },
+		"Positions.Ranges": func(r string, a, b, c int) { var p v2.Positions; it := p.Ranges(); it(); it() },
+		"UpTo":             func(r string, a, b, c int) { v2.UpTo(a) },
+		"Between":          func(r string, a, b, c int) { v2.Between(a, b) },
+		"DigitsPerRow": func(r string, a, b, c int) {
+			_, s := recv2(r)
+			v2.Sprint(s, v2.UpTo(30), v2.DigitsPerRow(a), v2.DigitsPerColumn(b))
+		},
+		"DigitsPerColumn": func(r string, a, b, c int) {
+			_, s := recv2(r)
+			v2.Sprint(s, v2.UpTo(30), v2.DigitsPerColumn(a), v2.DigitsPerRow(b))
+		},
+		"ShowCount": func(r string, a, b, c int) {
+			_, s := recv2(r)
+			v2.Sprint(s, v2.UpTo(30), v2.ShowCount(a%2 == 0), v2.DigitsPerRow(b))
+		},
+		"MissingDigit": func(r string, a, b, c int) {
+			_, s := recv2(r)
+			v2.Sprint(s, v2.Between(3, 30), v2.MissingDigit(rune(a)))
+		},
 		"Sprint": func(r string, a, b, c int) {
 			_, s := recv2(r)
 			lo, hi := a, b
@@ -242,8 +318,14 @@ func api2() map[string]apiFn {
 			}
 			v2.Sprint(s, v2.Between(lo, hi), v2.DigitsPerRow(c))
 		},
-		"Fprint": func(r string, a, b, c int) { _, s := recv2(r); v2.Fprint(io.Discard, s, v2.UpTo(40), v2.DigitsPerRow(a), v2.DigitsPerColumn(b)) },
-		"Print":  func(r string, a, b, c int) { _, s := recv2(r); withStdoutDiscarded(func() { v2.Print(s, v2.UpTo(20), v2.DigitsPerRow(a)) }) },
+		"Fprint": func(r string, a, b, c int) {
+			_, s := recv2(r)
+			v2.Fprint(io.Discard, s, v2.UpTo(40), v2.DigitsPerRow(a), v2.DigitsPerColumn(b))
+		},
+		"Print": func(r string, a, b, c int) {
+			_, s := recv2(r)
+			withStdoutDiscarded(func() { v2.Print(s, v2.UpTo(20), v2.DigitsPerRow(a)) })
+		},
 	}
 	return m
 }
@@ -325,7 +407,10 @@ func api3() map[string]apiFn {
 		},
 		"FiniteNumber.WithStart":       func(r string, a, b, c int) { _, s, _, _ := recv3(r); drain3(s.WithStart(a).WithEnd(60).Iterator()) },
 		"FiniteNumber.FiniteWithStart": func(r string, a, b, c int) { drain3(fin(r).FiniteWithStart(a).FiniteWithStart(b).Reverse()) },
-		"FiniteNumber.WithEnd":         func(r string, a, b, c int) { _, s, _, _ := recv3(r); drain3(s.WithEnd(a).WithStart(b).WithEnd(60).Iterator()) },
+		"FiniteNumber.WithEnd": func(r string, a, b, c int) {
+			_, s, _, _ := recv3(r)
+			drain3(s.WithEnd(a).WithStart(b).WithEnd(60).Iterator())
+		},
 		"FiniteNumber.WithSignificant": func(r string, a, b, c int) {
 			n, _, _, _ := recv3(r)
 			if n == nil {
@@ -357,14 +442,19 @@ func api3() map[string]apiFn {
 			for range v3.BackwardMatches(fin(r), pickSlice(a)) {
 			}
 		},
-		"Find":                 func(r string, a, b, c int) { drainInts(v3.Find(fin(r), pickSlice(a))) },
-		"FindR":                func(r string, a, b, c int) { drainInts(v3.FindR(fin(r), pickSlice(a))) },
-		"FindAll":              func(r string, a, b, c int) { v3.FindAll(fin(r), pickSlice(a)) },
-		"FindFirst":            func(r string, a, b, c int) { v3.FindFirst(fin(r), pickSlice(a)) },
-		"FindFirstN":           func(r string, a, b, c int) { v3.FindFirstN(fin(r), pickSlice(a), b) },
-		"FindLast":             func(r string, a, b, c int) { v3.FindLast(fin(r), pickSlice(a)) },
-		"FindLastN":            func(r string, a, b, c int) { v3.FindLastN(fin(r), pickSlice(a), b) },
-		"PositionsBuilder.Add": func(r string, a, b, c int) { var pb v3.PositionsBuilder; pb.Add(a).Add(b).Add(c); p := pb.Build(); p.End() },
+		"Find":       func(r string, a, b, c int) { drainInts(v3.Find(fin(r), pickSlice(a))) },
+		"FindR":      func(r string, a, b, c int) { drainInts(v3.FindR(fin(r), pickSlice(a))) },
+		"FindAll":    func(r string, a, b, c int) { v3.FindAll(fin(r), pickSlice(a)) },
+		"FindFirst":  func(r string, a, b, c int) { v3.FindFirst(fin(r), pickSlice(a)) },
+		"FindFirstN": func(r string, a, b, c int) { v3.FindFirstN(fin(r), pickSlice(a), b) },
+		"FindLast":   func(r string, a, b, c int) { v3.FindLast(fin(r), pickSlice(a)) },
+		"FindLastN":  func(r string, a, b, c int) { v3.FindLastN(fin(r), pickSlice(a), b) },
+		"PositionsBuilder.Add": func(r string, a, b, c int) {
+			var pb v3.PositionsBuilder
+			pb.Add(a).Add(b).Add(c)
+			p := pb.Build()
+			p.End()
+		},
 		"PositionsBuilder.AddRange": func(r string, a, b, c int) {
 			var pb v3.PositionsBuilder
 			pb.AddRange(a, b).AddRange(c, a).AddRange(b, c)
@@ -372,9 +462,24 @@ func api3() map[string]apiFn {
 			for range p.All() {
 			}
 		},
-		"PositionsBuilder.Build": func(r string, a, b, c int) { var pb v3.PositionsBuilder; pb.Build(); pb.Add(a); pb.Build(); pb.Build() },
-		"Positions.End":          func(r string, a, b, c int) { var p v3.Positions; p.End(); v3.UpTo(a).End() },
-		"Positions.Ranges":       func(r string, a, b, c int) { var p v3.Positions; it := p.Ranges(); it(); it() },
+		"PositionsBuilder.Build": func(r string, a, b, c int) {
+			var pb v3.PositionsBuilder
+			pb.Build()
+			pb.Add(a)
+			pb.Build()
+			pb.Build()
+			// a builder is reusable after Build, whatever order its ranges came in
+			pb.Add(b).Add(a).Add(c).AddRange(a-2, a-1)
+			pb.Build()
+			pb.AddRange(c, b)
+			pb.Add(a)
+			pb.Build()
+			pb.AddRange(b, c).AddRange(a, b)
+			pb.Build()
+			pb.Add(c)
+		},
+		"Positions.End":    func(r string, a, b, c int) { var p v3.Positions; p.End(); v3.UpTo(a).End() },
+		"Positions.Ranges": func(r string, a, b, c int) { var p v3.Positions; it := p.Ranges(); it(); it() },
 		"Positions.All": func(r string, a, b, c int) {
 			var p v3.Positions
 			for range p.All() {
@@ -388,9 +493,12 @@ func api3() map[string]apiFn {
 		"DigitsPerRow":    func(r string, a, b, c int) { v3.Swrite(fin(r), v3.DigitsPerRow(a), v3.DigitsPerColumn(b)) },
 		"DigitsPerColumn": func(r string, a, b, c int) { v3.Swrite(fin(r), v3.DigitsPerColumn(a), v3.DigitsPerRow(b)) },
 		"ShowCount":       func(r string, a, b, c int) { v3.Swrite(fin(r), v3.ShowCount(a%2 == 0), v3.DigitsPerRow(b)) },
-		"MissingDigit":    func(r string, a, b, c int) { _, s, _, _ := recv3(r); v3.Sprint(s, v3.Between(3, 30), v3.MissingDigit(rune(a))) },
-		"TrailingLF":      func(r string, a, b, c int) { v3.Swrite(fin(r), v3.TrailingLF(a%2 == 0), v3.DigitsPerRow(b)) },
-		"LeadingDecimal":  func(r string, a, b, c int) { v3.Swrite(fin(r), v3.LeadingDecimal(a%2 == 0), v3.DigitsPerRow(b)) },
+		"MissingDigit": func(r string, a, b, c int) {
+			_, s, _, _ := recv3(r)
+			v3.Sprint(s, v3.Between(3, 30), v3.MissingDigit(rune(a)))
+		},
+		"TrailingLF":     func(r string, a, b, c int) { v3.Swrite(fin(r), v3.TrailingLF(a%2 == 0), v3.DigitsPerRow(b)) },
+		"LeadingDecimal": func(r string, a, b, c int) { v3.Swrite(fin(r), v3.LeadingDecimal(a%2 == 0), v3.DigitsPerRow(b)) },
 		"Sprint": func(r string, a, b, c int) {
 			_, s, _, _ := recv3(r)
 			lo, hi := a, b
@@ -399,11 +507,19 @@ func api3() map[string]apiFn {
 			}
 			v3.Sprint(s, v3.Between(lo, hi), v3.DigitsPerRow(c))
 		},
-		"Swrite": func(r string, a, b, c int) { v3.Swrite(fin(r), v3.DigitsPerRow(a), v3.DigitsPerColumn(b), v3.MissingDigit(rune(c))) },
-		"Fprint": func(r string, a, b, c int) { _, s, _, _ := recv3(r); v3.Fprint(io.Discard, s, v3.UpTo(40), v3.DigitsPerRow(a), v3.DigitsPerColumn(b)) },
+		"Swrite": func(r string, a, b, c int) {
+			v3.Swrite(fin(r), v3.DigitsPerRow(a), v3.DigitsPerColumn(b), v3.MissingDigit(rune(c)))
+		},
+		"Fprint": func(r string, a, b, c int) {
+			_, s, _, _ := recv3(r)
+			v3.Fprint(io.Discard, s, v3.UpTo(40), v3.DigitsPerRow(a), v3.DigitsPerColumn(b))
+		},
 		"Fwrite": func(r string, a, b, c int) { v3.Fwrite(io.Discard, fin(r), v3.DigitsPerRow(a), v3.DigitsPerColumn(b)) },
-		"Print":  func(r string, a, b, c int) { _, s, _, _ := recv3(r); withStdoutDiscarded(func() { v3.Print(s, v3.UpTo(20), v3.DigitsPerRow(a)) }) },
-		"Write":  func(r string, a, b, c int) { withStdoutDiscarded(func() { v3.Write(fin(r), v3.DigitsPerRow(a)) }) },
+		"Print": func(r string, a, b, c int) {
+			_, s, _, _ := recv3(r)
+			withStdoutDiscarded(func() { v3.Print(s, v3.UpTo(20), v3.DigitsPerRow(a)) })
+		},
+		"Write": func(r string, a, b, c int) { withStdoutDiscarded(func() { v3.Write(fin(r), v3.DigitsPerRow(a)) }) },
 	}
 	return m
 }
